@@ -6,13 +6,14 @@ Transcribed (snapshot ef0888e + the `fix:` commit recorded in findings/C02.txt):
   default "no entry"; inner map = association list without a meaningful order: Go iterates it in random order),
   `taskToForkKeys` ↦ `TM.forkKeysOf`, `tasks` ↦ `TM.tasks`.
 * `Task.Measurements()` = the `Measurement` of EVERY from-node (possibly "", duplicates kept); `forkKeys` = dbrps × measurements.
-* `StartTask`: refuses a task without dbrps and (since the third fix) an id that is already executing; `newFork` makes ONE edge and registers it under every key (appending the key to
+* `StartTask`: refuses a task without dbrps and (since the third/fourth fix) an id that is LIVE (in `tm.tasks` with fork keys); `newFork` makes ONE edge and registers it under every key (appending the key to
   `taskToForkKeys[id]`, overwriting `forks[key][id]`); the edge becomes the input of the task's stream node (`et.start(ins)`),
   which is what `Edge.task` records; `tm.tasks[id] = et`.
 * `StartTask` can still fail after `newFork` (`TaskStore.LoadSnapshot` error): op `startfail`; the repaired code removes the fork again
   (`startTaskFail`), the snapshot's did not (`startTaskFailOld`).
 * `StopTask`/`DeleteTask` → `stopTask`: nothing when the id is not executing; else `delete(tm.tasks,id)` and `delFork`, which walks
   `taskToForkKeys[id]`, closes the first edge it finds (once) and deletes the id from `forks[key]`; then forgets the key list.
+* `Drain`: `delFork` for every id that has fork keys; `tm.tasks` keeps the (ended) executions, which may then be started again.
 * `WritePoints`: empty retention policy ⇒ `DefaultRetentionPolicy`; every point becomes a PointMessage carrying (db, rp) and goes
   through `forkPoint` in call order (`runForking` is one goroutine reading a FIFO edge).
 * `forkPoint`: Collect on every edge of `forks[(db,rp,name)]`, then on every edge of `forks[(db,rp,"")]` — since the fix, skipping a
@@ -106,6 +107,9 @@ structure TM where
   forkKeysOf : String → List Key := fun _ => []          -- taskToForkKeys
   tasks : String → Option Edge := fun _ => none           -- tm.tasks (the ExecutingTask = its definition + input edge)
   nextEdge : Nat := 0
+  /-- every id `newFork` was ever called for: a superset of the key set of the Go map `taskToForkKeys` (ids that are in the list
+  but have no fork keys any more are skipped by `delFork` anyway) -/
+  everForked : List String := []
   closed : List Edge := []
   /-- every `Edge.Collect` performed by `forkPoint`, in order -/
   log : List (Edge × Point) := []
@@ -122,7 +126,7 @@ def registerKeys (id : String) (e : Edge) (keys : List Key)
 def newFork (s : TM) (d : TaskDef) : TM × Edge :=
   let e : Edge := { eid := s.nextEdge, task := d }
   let st := registerKeys d.id e d.keys (s.forks, s.forkKeysOf)
-  ({ s with nextEdge := s.nextEdge + 1, forks := st.1, forkKeysOf := st.2 }, e)
+  ({ s with nextEdge := s.nextEdge + 1, forks := st.1, forkKeysOf := st.2, everForked := s.everForked ++ [d.id] }, e)
 
 /-- `StartTask` as it was at the snapshot: no look at `tm.tasks` — starting an id that is executing overwrote `tm.tasks[id]` and
 the entries of the NEW keys, leaving the old edge registered under the old keys (kept for the counterexample theorem). -/
@@ -132,10 +136,15 @@ def startTaskOld (s : TM) (d : TaskDef) : TM :=
     let (s', e) := newFork s d
     { s' with tasks := upd s'.tasks d.id (some e) }
 
-/-- `StartTask` (since the third `fix:` commit it refuses an id that is already executing). -/
+/-- Is the id LIVE: in `tm.tasks` and still holding fork keys (`len(tm.taskToForkKeys[id]) > 0`)? After `Drain` (or when it has no
+from-node at all) an id can sit in `tm.tasks` without being live. -/
+def TM.isLive (s : TM) (id : String) : Bool := (s.tasks id).isSome && !(s.forkKeysOf id).isEmpty
+
+/-- `StartTask` (since the third and fourth `fix:` commits it refuses an id that is LIVE; an id whose execution has ended — its forks
+are gone — may be started again, as at the snapshot). -/
 def startTask (s : TM) (d : TaskDef) : TM :=
   if d.dbrps.isEmpty then s                 -- "task does contain any dbrps"
-  else if (s.tasks d.id).isSome then s      -- "task is already executing"
+  else if s.isLive d.id then s              -- "task is already executing"
   else
     let (s', e) := newFork s d
     { s' with tasks := upd s'.tasks d.id (some e) }
@@ -156,7 +165,7 @@ def delFork (s : TM) (id : String) : TM :=
 /-- `StartTask` when `TaskStore.LoadSnapshot` fails: that happens AFTER `newFork`; since the second `fix:` commit the fork is removed
 again before the error is returned. -/
 def startTaskFail (s : TM) (d : TaskDef) : TM :=
-  if d.dbrps.isEmpty then s else if (s.tasks d.id).isSome then s else delFork (newFork s d).1 d.id
+  if d.dbrps.isEmpty then s else if s.isLive d.id then s else delFork (newFork s d).1 d.id
 
 /-- … as it was at the snapshot: the error return left the edge registered (nobody ever reads it). -/
 def startTaskFailOld (s : TM) (d : TaskDef) : TM :=
@@ -167,6 +176,11 @@ def stopTask (s : TM) (id : String) : TM :=
   match s.tasks id with
   | some _ => delFork { s with tasks := upd s.tasks id none } id
   | none => s
+
+/-- `Drain`: `for id := range tm.taskToForkKeys { tm.delFork(id) }` (after the forking goroutines have finished). `tm.tasks` is not
+touched. `Drain` also closes `WritePoints` for good (`ErrTaskMasterClosed`); points can still be fed through `tm.Stream(name)`,
+which is what the op `write` stands for after a drain (the driver knows which API the harness used). -/
+def drain (s : TM) : TM := s.everForked.foldl delFork s
 
 /-- `edge.Collect(p)`. -/
 def collect (s : TM) (e : Edge) (p : Point) : TM :=
@@ -197,6 +211,7 @@ inductive Op where
   | startfail (d : TaskDef)        -- StartTask whose snapshot cannot be loaded: returns an error
   | stop (id : String)
   | delete (id : String)
+  | drain                          -- TaskMaster.Drain: every fork is deleted (the executions end), tm.tasks keeps its entries
   | write (db rp : String) (pts : List RawPoint)
 deriving Repr, Inhabited
 
@@ -213,6 +228,7 @@ def stepWith (fp : TM → Point → TM) (s : TM) : Op → TM
   | .startfail d => startTaskFail s d
   | .stop id => stopTask s id
   | .delete id => stopTask s id
+  | .drain => drain s
   | .write db rp pts => writePointsWith fp s db rp pts
 
 def step (s : TM) (op : Op) : TM := stepWith forkPoint s op
